@@ -69,6 +69,12 @@ type Config struct {
 	// Answers: per MID the answer token the peer gives: + - = Y N L H R !0 A0 (either case).
 	Answers map[string]string `json:"answers,omitempty"`
 	EarlyFQ bool              `json:"early_fq,omitempty"`
+	// Late: the peer's outbox is still empty in its first Late turns (its mail
+	// arrives while the session is running): it says FF there although it will
+	// propose later. The wait ends as soon as the Session says FF too, so that
+	// the session is not ended over mail the peer is about to get. Messages the
+	// session ended without are listed in Result.Unoffered.
+	Late int `json:"late,omitempty"`
 	// HastyFQ: when the Session's last turn was FF and the peer has just
 	// sent (or had refused) its last block, FQ follows immediately, out of
 	// turn, and the peer hangs up.
@@ -116,8 +122,10 @@ type Result struct {
 	HandshakeLines []string
 	PR             string
 	FWLine         string
-	Completed      bool // FQ exchanged
-	Hasty          bool // ... by the peer, out of turn, right behind its last block
+	Completed      bool     // FQ exchanged
+	HeldTurns      int      // turns in which the peer said FF because its mail had not arrived yet (Config.Late)
+	Unoffered      []string // our MIDs never proposed because the session ended first (only with Config.Late)
+	Hasty          bool     // ... by the peer, out of turn, right behind its last block
 	RemoteErr      string
 	Stopped        string // why the peer stopped early
 	Waiting        string // what the peer was waiting for when it last blocked (handshake, fs, turn, transfer:<answer token>)
@@ -141,6 +149,8 @@ type peer struct {
 	gone        map[string]bool // resolved or deferred MIDs
 	awaiting    []string
 	inHandshake bool
+	turns       int
+	offered     map[string]bool
 	lastEmitted []byte // what the last emit really wrote (after mutations)
 }
 
@@ -153,6 +163,13 @@ func Run(conn net.Conn, cfg Config) *Result {
 	p.queue = append(p.queue, cfg.Out...)
 	defer func() {
 		p.res.Wrote = p.wrote
+		if p.cfg.Late > 0 {
+			for _, m := range p.queue {
+				if !p.offered[m.MID] {
+					p.res.Unoffered = append(p.res.Unoffered, m.MID)
+				}
+			}
+		}
 		conn.Close()
 	}()
 	if err := p.run(); err != nil && p.res.Stopped == "" {
@@ -580,6 +597,11 @@ func (p *peer) stream(m OutMsg) []byte {
 
 func (p *peer) myTurn(remoteNoMsgs bool) (quit, sentBlock bool, err error) {
 	pend := p.pending()
+	p.turns++
+	if p.turns <= p.cfg.Late && !remoteNoMsgs && !p.cfg.EarlyFQ && len(pend) > 0 {
+		pend = nil // not in the outbox yet
+		p.res.HeldTurns++
+	}
 	if len(pend) == 0 {
 		if err = p.comment("before-ff"); err != nil {
 			return
@@ -625,6 +647,10 @@ func (p *peer) myTurn(remoteNoMsgs bool) (quit, sentBlock bool, err error) {
 	streams := make([][]byte, len(block))
 	for i, m := range block {
 		streams[i] = p.stream(m)
+		if p.offered == nil {
+			p.offered = map[string]bool{}
+		}
+		p.offered[m.MID] = true
 		l := fmt.Sprintf("FC EM %s %d %d 0", m.MID, len(m.Raw), len(streams[i]))
 		if err = p.line("proposal", l); err != nil {
 			return
